@@ -772,6 +772,11 @@ class CeiloChunk(AbstractChunk):
             raise AmpycloudError('Slicing not yet done. You cannot find groups without ' +
                                  'finding slices first !')
 
+        # If the layering was already done, refuse to proceed *before* altering anything.
+        if self._layers is not None:
+            raise AmpycloudError('Layering already done. If you look for groups now, you will '
+                                 'loose the layering information !')
+
         # First, make sure that we can keep track of the isolation status of slices.
         self._slices['isolated'] = None
 
